@@ -2,7 +2,7 @@
 from __future__ import annotations
 import json, random
 from ..common import Result, Violation, run_driver, canon_hash
-from ..aghist import Gen, Impl, canon_obs, canon_out, consistent
+from ..aghist import Gen, Impl, canon_obs, canon_out, consistent, rejected_clean
 
 ASSUMPTIONS = [
     'json / PyYAML round trips behave like jsonRT (id keys of inner dictionaries become strings) / yamlRT (identity) on the document model; exercised through real files',
@@ -13,7 +13,9 @@ TRUSTED = ['Lean 4.33 kernel', 'axioms: propext, Classical.choice, Quot.sound',
            'hand-written model Model/AGSerial.lean over Model/AGS.lean (tied by this correspondence)',
            'harness/aghist.py, harness/props/c10.py']
 WEIGHTS = {'add_node': 8, 'link': 10, 'remove_node': 1, 'add_attacker': 4, 'remove_attacker': 1, 'compromise': 6, 'undo': 1,
-           'attach': 1, 'set_labels': 3, 'prune': 1, 'touch': 2, 'save_load': 2}
+           'attach': 1, 'set_labels': 3, 'prune': 1, 'touch': 2, 'save_load': 2,
+           # rejected calls before / between the saves (and on a loaded graph): they must change nothing
+           'add_attacker_bad': 1, 'add_attacker_used_id': 1, 'add_attacker_again': 1, 'add_node_again': 1}
 
 def preserved(g, with_asset):
     """what the property says a save / load keeps"""
@@ -35,6 +37,8 @@ def run_one(ops, mo_steps, res):
                 return ('oracle', i, [f'save / load of the graph raises {type(e).__name__}: {str(e)[:80]}'])
             raise
         res.bump(op['k'])
+        if 'case' in op: res.bump(op['case'] + (' -> ' + st['err'] if st['err'] else ' -> accepted'))
+        if rejected_clean(st): return ('oracle', i, rejected_clean(st) + consistent(im.g))
         if op['k'] == 'save_load':
             after = preserved(im.g, op['withModel'])
             probs = [f'{k} differ after save/load ({op["fmt"]}, model {"given" if op["withModel"] else "absent"})' for k in before if before[k] != after[k]]
